@@ -1284,6 +1284,8 @@ impl<'a> World<'a> {
                 );
             }
         }
+        // highest batch seqno present in any journal file (read from private copies of the files)
+        let journal_max = if self.o.c11_probe { journal_max_seqno(&self.dir) } else { None };
         // different open options: they must not matter for existing keyspaces
         if alt & 1 != 0 {
             self.lz4_now = !self.lz4_now;
@@ -1365,6 +1367,14 @@ impl<'a> World<'a> {
         self.unflushed_write_since_open = false;
         self.maint_before_reopen = false;
         if self.o.c11_probe {
+            if let Some(jm) = journal_max {
+                self.st.inc("journal_seqno_checks");
+                ck!(
+                    self.dbi().seqno() > jm,
+                    "after reopen the next sequence number {} is not above the highest batch seqno {jm} still present in a journal file",
+                    self.dbi().seqno()
+                );
+            }
             self.c11_probe()?;
         }
         self.ser_base = self.model.clone();
@@ -1538,4 +1548,31 @@ pub fn run_case(dir: &std::path::Path, case: &Case, o: &Opts) -> RunOut {
         failure,
         steps,
     }
+}
+
+/// max batch seqno over all journal files of a closed database directory; reads private copies
+pub fn journal_max_seqno(dir: &std::path::Path) -> Option<u64> {
+    use std::io::Read;
+    let mut max = None;
+    let tmp = dir.with_extension("jnlcopy");
+    for e in std::fs::read_dir(dir).ok()?.flatten() {
+        let p = e.path();
+        if p.extension().map_or(true, |x| x != "jnl") {
+            continue;
+        }
+        let mut buf = vec![0u8; 8 * 1024 * 1024];
+        let n = std::fs::File::open(&p).ok()?.read(&mut buf).unwrap_or(0);
+        buf.truncate(n);
+        while buf.last() == Some(&0) {
+            buf.pop();
+        }
+        if std::fs::write(&tmp, &buf).is_err() {
+            continue;
+        }
+        if let Ok(Some(m)) = fjall::verif::journal_max_seqno(&tmp) {
+            max = Some(max.map_or(m, |x: u64| x.max(m)));
+        }
+    }
+    let _ = std::fs::remove_file(&tmp);
+    max
 }
